@@ -433,6 +433,11 @@ func (a *Analyzer) buildDependencies(info *ConstructorInfo) []*Dependency {
 			dep.Type = param.ElemType
 		}
 
+		// A group field is resolved as the whole group; a name tag next to it plays no part
+		if param.Group != "" {
+			dep.Key = nil
+		}
+
 		deps = append(deps, dep)
 	}
 
